@@ -37,6 +37,10 @@ CHECKS.update({
              text="Exploration plus an exhaustively enumerated sub-space (reported in the evidence). Seeded add/resize/query scripts on the real ring buffer are compared with a list model (ids, ranges, bounds, recent events), event-store batches with the size in force, and subscribers of concurrent stream runs must receive a gap-free, repeat-free run of ids that ends with the last event."),
 })
 
+CHECKS["C15"] = dict(engine="pure", design="4/C15", note=PURE_NOTE, technique="input monitor: YAML documents generated from a grammar over the configuration schema; real validator run 6 times per document (determinism), accepted documents judged by a three-valued hierarchy reference and loaded into a new and into a running ClusterContext",
+    text="Exploration of inputs. Tens of thousands of generated configuration documents (valid, invalid and near the accept/reject boundary); the validator must not panic and must be deterministic; an accepted document must satisfy the documented hierarchy rules, load into a new scheduler and into a running one without error or panic, and leave the configured placement rules active.")
+CHECKS["C16"] = dict(engine="det", design="4/C16", technique="runtime monitor: full-snapshot before/after relation for every reload in seeded histories (rejected reload = nothing changes; accepted reload = running state preserved, new settings applied, dropped queues draining), cleaner invoked through the hook",
+    text="Exploration. Reload-heavy histories: new configurations from the same grammar replace the current one at random points of running histories; every reload and every later step is judged (state preserved, settings applied, draining semantics, queues removed only when empty).")
 CHECKS["C13"] = dict(engine="det", design="4/C13", technique="hostile-input monitor: generated SI messages injected into reachable states in child processes; every message logged before sending; oracle = process alive + barrier returns + matching rejection + ledger snapshot unchanged + conservation",
     note="Trusted: the harness; the generator's knowledge of which items are invalid by the protocol's own rules. No nil list elements / nil map values (excluded by the property).",
     text="Exploration of inputs x states. 24 classes of hostile or malformed SI messages are injected after seeded legal prefixes; a dead worker is a violation whose witness is the last logged message, a barrier that does not return within 30 s is a hang, invalid items must be answered with the matching rejection and leave the ledger snapshot identical, every message must leave the accounting consistent.")
